@@ -208,6 +208,34 @@ theorem runOps_inv (m : Machine) (kind : Kind) (fuel : Nat) (ops : List Op) (c :
 theorem inv_fresh (cur : Option Val) : Inv { cur := cur } := by
   simp [Inv]
 
+theorem inv_cur (c : Cfg) (v : Option Val) : Inv { c with cur := v } ↔ Inv c := Iff.rfl
+
+theorem inv_requeue (c : Cfg) (h : Inv c) : Inv { c with queue := [], locked := false } := by
+  obtain ⟨a, _, _, _, e⟩ := h
+  exact ⟨a, by simp, by simp, by simp, e⟩
+
+/-- every step of a general history keeps the invariant, whatever machine is in force -/
+theorem stepH_inv (m : Machine) (kind : Kind) (fuel : Nat) (h : HOp) (c : Cfg) (hc : Inv c) :
+    Inv (stepH m { rtc := true, kind := kind } fuel h c) := by
+  cases h with
+  | op x => exact stepOp_inv m kind fuel x c hc
+  | write v => exact (inv_cur c v).mpr hc
+  | reconstruct =>
+    have := stepOp_inv m kind fuel .construct _ (inv_requeue c hc)
+    simp only [stepOp, EM.bind_apply] at this
+    show Inv (construct m _ fuel _).1
+    revert this
+    cases construct m { rtc := true, kind := kind } fuel { c with queue := [], locked := false } with
+    | mk c' r => cases r <;> exact fun h => h
+
+theorem runHist_inv (kind : Kind) (fuel : Nat) (hist : List (Machine × HOp)) (c : Cfg) (h : Inv c) :
+    Inv (runHist { rtc := true, kind := kind } fuel hist c) := by
+  induction hist generalizing c with
+  | nil => exact h
+  | cons x rest ih =>
+    obtain ⟨m, o⟩ := x
+    exact ih _ (stepH_inv m kind fuel o c h)
+
 /-- **C03 (FIFO, no interleaving), history form.** For every machine, every callback behaviour
 (any placement, fan-out and depth of nested sends, failing callbacks included), either engine, and
 every history of constructions, sends and activations issued from outside callbacks, the trigger
@@ -215,6 +243,13 @@ ids along the callback log never decrease. -/
 theorem C03_history (m : Machine) (kind : Kind) (fuel : Nat) (cur : Option Val) (ops : List Op) :
     ((runOps m { rtc := true, kind := kind } fuel ops { cur := cur }).log.map Entry.tid).Pairwise (· ≤ ·) :=
   (runOps_inv m kind fuel ops _ (inv_fresh cur)).1
+
+/-- **C03, general histories.** The same for histories in which the machine itself changes between
+operations (listeners attached late, options assigned after construction), somebody else writes the model
+field, and the machine object is re-created over the same model (restart, `deepcopy`, pickle). -/
+theorem C03_history_general (kind : Kind) (fuel : Nat) (cur : Option Val) (hist : List (Machine × HOp)) :
+    ((runHist { rtc := true, kind := kind } fuel hist { cur := cur }).log.map Entry.tid).Pairwise (· ≤ ·) :=
+  (runHist_inv kind fuel hist _ (inv_fresh cur)).1
 
 /-- In run-to-completion mode a nested `send` returns `None` to the callback. -/
 theorem C03_nested_returns_none (e : EventId) (c : Cfg) : (nestedRtc e c).2 = .ok .none := rfl
